@@ -707,6 +707,11 @@ func genE2EAV1(x *Ctx) {
 					if r.Bool() {
 						os = append([]av1Obu{{typ: 2, hasSize: true}}, os...) // temporal delimiter first, as encoders do
 					}
+					if r.Chance(1, 20) {
+						// an OBU at the 2- / 3-byte boundary of the LEB128 size field the receiver writes back
+						os = append([]av1Obu{{typ: 6, hasSize: true, payload: r.Bytes(r.Range(16380, 16390))}}, os...)
+						c.Tag("obu>=16384")
+					}
 				}
 				fs = append(fs, frame(r, os))
 			}
